@@ -6,6 +6,7 @@ package cfmem
 
 import (
 	"bytes"
+	"compress/gzip"
 	"encoding/json"
 	"fmt"
 	"io"
@@ -65,7 +66,26 @@ func jsonResp(req *http.Request, status int, body string) *http.Response {
 		Header: http.Header{"Content-Type": {"application/json"}}, Body: io.NopCloser(strings.NewReader(body)), ContentLength: int64(len(body)), Request: req}
 }
 
+// RoundTrip answers like the API behind a content-negotiating front end: a request that ASKS for gzip (an Accept-Encoding
+// header the application set itself - the header a real http.Transport adds on its own, and undoes on its own, is added below
+// this interface and never seen here) gets its answer gzip-encoded.
 func (a *API) RoundTrip(req *http.Request) (*http.Response, error) {
+	resp, err := a.roundTrip(req)
+	if err != nil || resp == nil || !strings.Contains(req.Header.Get("Accept-Encoding"), "gzip") {
+		return resp, err
+	}
+	plain, _ := io.ReadAll(resp.Body)
+	var zb bytes.Buffer
+	zw := gzip.NewWriter(&zb)
+	zw.Write(plain)
+	zw.Close()
+	resp.Body = io.NopCloser(&zb)
+	resp.ContentLength = int64(zb.Len())
+	resp.Header.Set("Content-Encoding", "gzip")
+	return resp, nil
+}
+
+func (a *API) roundTrip(req *http.Request) (*http.Response, error) {
 	var body []byte
 	if req.Body != nil {
 		body, _ = io.ReadAll(req.Body)
